@@ -216,7 +216,7 @@ func (c *Ctx) checkSiblingSwitches(r *Report, rule, kind string) {
 
 func init() {
 	register("C06", &propDef{
-		explain: "Ownership (freshness) analysis over SSA of every in-place write to container storage ([]Object, []keyValuePair, *BigMap, BigArray): element stores, appends that may reuse spare capacity, copy, slices.Insert/Delete/Grow, sort, and calls to functions summarised as mutating a receiver/argument. A write is accepted only when the target storage is allocated in the function or owned by every caller; otherwise the storage may be visible through another binding (b = a, argument, element of another container) and the write aliases. Plus small/large sibling agreement of type switches. Decides the no-aliasing mechanism for all sizes and sequences; does not decide that copies are complete (value equality).",
+		explain: "Ownership (freshness) analysis over SSA of every in-place write to container storage ([]Object, []keyValuePair, *BigMap, BigArray): element stores, appends that may reuse spare capacity, copy, slices.Insert/Delete/Grow, sort, and calls to functions summarised as mutating a receiver/argument. A write is accepted only when the target storage is allocated in the function or owned by every caller; otherwise the storage may be visible through another binding (b = a, argument, element of another container) and the write aliases. Plus small/large sibling agreement of type switches. Decides the no-aliasing mechanism for all sizes and sequences; does not decide that copies are complete (value equality). Also: x + y never returns storage derived from an operand (ownership roots with parameter sets), and container storage holds values, not References: []Object lists that may hold References are tracked interprocedurally to every place a list becomes array storage, with full-range Value() sweeps as the only cleaner.",
 		assume:  []string{"no pointer analysis is available: storage not allocated locally or received from all callers as owned is treated as possibly shared", "values loaded from the environment or from containers are shared"},
 		run:     runC06,
 	})
